@@ -70,6 +70,13 @@ def run(ctx):
             # D2
             fw = [(blk, c, t) for (blk, c, t) in p.calls() if c.name == "StreamExt::forward"]
             ctx.ob("D2", p.defp, "pump-uses-forward", loc(p.sp), len(fw) == 1, f"{len(fw)} forward call(s)")
+            # D6 forward() returns at the source's first Err item WITHOUT flushing or closing the sink: what it already handed to the sink
+            # (bytes sitting in the Framed write buffer since the last flush) is dropped with it. "Everything already received from the
+            # failing side is first delivered" therefore needs: the source's errors end the stream instead of being yielded, or the pump
+            # keeps the sink and closes it on the error path.
+            for (blk, c, t) in fw:
+                ok, why = _source_failure_keeps_output(prog, p, fam, t)
+                ctx.ob("D6", p.defp, "source-failure-still-delivers-what-was-forwarded", loc(t["sp"]), ok, why)
         ctx.ob("D2", root, "two-directions", loc(prog.body(root).sp), len(pumps) == 2, f"{len(pumps)} pump futures")
     # QUIC close after relay: in every function that closes a QuicStream, the first-item handler (the relay of that flow) runs before the close
     from .common import first_item_handlers
@@ -162,9 +169,103 @@ def run(ctx):
         drops = [b for b in bodies if b.impl_trait and last_seg(b.impl_trait) == "Drop" and b.impl_self_def == it["path"] and b.method == "drop"]
         ok = bool(drops) and any(c.method == "abort" for d in drops for (_, c, _) in d.calls())
         ctx.ob("D4", it["path"], "drop-aborts-task", loc(it["sp"]), ok, "Drop impl aborts the per-flow task" if ok else "no Drop impl aborting the stored JoinHandle: the task outlives its table entry", ordinal=False)
+    # D7 closing a flow's socket never discards what was written to it: an abortive close (SO_LINGER 0) makes the kernel drop the unsent
+    # part of the send buffer and answer with a reset instead of delivering it and finishing the stream
+    n_l = 0
+    for b in bodies:
+        for (blk, c, t) in b.calls():
+            if c.method == "set_zero_linger" or (c.method == "set_linger" and len(t["args"]) > 1 and not _is_none(b, t["args"][1])):
+                n_l += 1
+                ctx.ob("D7", b.defp, f"close-delivers-what-was-written:{c.method}", loc(t["sp"]), False,
+                       f"{c.name}: the socket is switched to an abortive close — when the flow is dropped the kernel discards whatever is still in the send buffer and "
+                       "sends a reset, so the tail of what the other side had already sent (flushed into the kernel, not yet on the wire) never arrives")
+    ctx.ob("D7", "workspace", "no-abortive-close", "-", True, f"{n_l} socket(s) configured for an abortive close", nontrivial=False, ordinal=False)
     for b in bodies:
         if not any(k in b.defp for k in ("template", "server::shadowsocks", "octo_squirrel::codec")):
             continue
         for (blk, c, t) in b.calls():
             if c.target.endswith("mem::forget") or c.name == "Box::leak" or "ManuallyDrop" in c.target:
                 ctx.ob("D4", b.defp, f"leak:{c.method}", loc(t["sp"]), False, f"{c.name} in a relay path: sockets / tasks are never released")
+
+
+ERR_DROPPERS = ("filter_map", "take_while", "map_while", "try_take_while", "scan", "take_until")
+
+
+def _drops_errors(prog, c, t, b):
+    """does this stream adapter call turn Err items of its source into skipped items / end of stream?"""
+    if c.method not in ERR_DROPPERS:
+        return False
+    defs_ = [a.get("d") for a in c.args if a.get("d")]
+    for a in t["args"][1:]:
+        p = op_place(a)
+        if p is not None:
+            m = re.search(r"\{closure@", b.local_ty(p[0]))
+            for d in b.defs().get(p[0], []):
+                if d[0] == "assign" and d[3]["rv"]["k"] == "agg" and d[3]["rv"].get("def"):
+                    defs_.append(d[3]["rv"]["def"])
+    for d in defs_:
+        if d.endswith("Result::ok") or d.endswith("result::Result::ok"):
+            return True
+        cb = prog.body(d)
+        if cb is not None and any(cc.name in ("Result::ok", "Result::is_ok", "Result::is_err") for (_, cc, _) in cb.calls()):
+            return True
+    return False
+
+
+def _source_failure_keeps_output(prog, p, fam, t):
+    sp_ = op_place(t["args"][0])
+    kp_ = op_place(t["args"][1]) if len(t["args"]) > 1 else None
+    if sp_ is None:
+        return False, "the forwarded stream is not a place"
+    # (c) the pump keeps its sink (forward(&mut sink)) and closes / flushes it itself
+    if kp_ is not None and p.local_ty(kp_[0]).strip().startswith("&mut") and any(c.name in ("SinkExt::close", "SinkExt::flush") for (_, c, _) in p.calls()):
+        return True, "the pump lends its sink to forward() and closes it itself afterwards"
+    locs, calls, _ = p.slice_back([sp_[0]])
+    for (blk, c, tt) in calls:
+        if _drops_errors(prog, c, tt, p):
+            return True, f"Err items of the source are dropped by {c.name} before the stream is forwarded (a failed read ends the stream; forward() then flushes and closes the sink)"
+    # follow captured variables into the function that built the pump
+    names = set()
+    for l in locs | {sp_[0]}:
+        for d in p.defs().get(l, []):
+            if d[0] == "assign":
+                for o in p.operands_of_rvalue(d[3]["rv"]) + ([{"copy": d[3]["rv"]["p"]}] if d[3]["rv"]["k"] == "ref" else []):
+                    pl = op_place(o)
+                    if pl is not None and pl[0] == 1:
+                        nm = p.upvar_name(pl)
+                        if nm:
+                            names.add(nm)
+    pl0 = sp_ if sp_[0] == 1 else None
+    if pl0 is not None and p.upvar_name(pl0):
+        names.add(p.upvar_name(pl0))
+    ups = [nm for (nm, _) in p.j.get("upvars", [])]
+    for parent in fam:
+        if parent.defp == p.defp:
+            continue
+        for blk in parent.rpo():
+            for st in parent.stmts(blk):
+                if st["k"] == "assign" and st["rv"]["k"] == "agg" and st["rv"].get("def") == p.defp:
+                    for nm in names:
+                        if nm not in ups:
+                            continue
+                        ops = st["rv"]["ops"]
+                        i = ups.index(nm)
+                        if i >= len(ops) or op_place(ops[i]) is None:
+                            continue
+                        _, pcalls, _ = parent.slice_back([op_place(ops[i])[0]])
+                        for (b2, c2, t2) in pcalls:
+                            if _drops_errors(prog, c2, t2, parent):
+                                return True, f"Err items of the source are dropped by {c2.name} (in {last_seg(parent.root)}) before the stream is forwarded: a failed read ends the stream and forward() flushes and closes the sink"
+    return False, ("the source's Err items reach forward(), which returns at the first of them without flushing or closing the sink it owns: whatever it had already "
+                   "handed to the sink in the same burst (bytes in the Framed write buffer since the last flush) is dropped — a reset right behind the last data "
+                   "truncates what the other side receives, and it then sees a normal end of stream")
+
+
+def _is_none(b, op):
+    p = op_place(op)
+    if p is None:
+        return "None" in str(op)
+    for d in b.defs().get(p[0], []):
+        if d[0] == "assign" and d[3]["rv"]["k"] == "agg" and d[3]["rv"].get("variant") == "None":
+            return True
+    return False
